@@ -1,12 +1,18 @@
 #!/bin/bash
 # Run one check against a MUTATED COPY of /repo (never touches /repo itself).
-# usage: mutcheck.sh <patch.diff | -> <Cxx> [quick|thorough]     ("-" = no patch: sanity run on the copy)
+# usage: [MUT_DIR=..] [MUT_BASE=<commit>] mutcheck.sh <patch.diff | -> <Cxx> [quick|thorough]     ("-" = no patch: sanity run on the copy)
 # The copy lives in ${MUT_DIR:-/tmp/mut}/{repo,tv,target,out}; it is reset from /repo and /verif/tv on every call.
 set -u
 PATCH="$1"; PROP="$2"; TIER="${3:-quick}"
 M=${MUT_DIR:-/tmp/mut}
 mkdir -p $M/out
-rsync -a --delete --exclude target --exclude .git /repo/ $M/repo/ || exit 2
+if [ -n "${MUT_BASE:-}" ]; then
+  # evaluate against an older commit of /repo (a seeded change written before a later fix rewrote the same lines)
+  rm -rf $M/repo && mkdir -p $M/repo && git -C /repo archive "$MUT_BASE" | tar -x -C $M/repo || exit 2
+  cp /repo/Cargo.lock $M/repo/ 2>/dev/null
+else
+  rsync -a --delete --exclude target --exclude .git /repo/ $M/repo/ || exit 2
+fi
 rsync -a --delete --exclude target /verif/tv/ $M/tv/ || exit 2
 sed -i "s|/repo/crates/|$M/repo/crates/|g" $M/tv/Cargo.toml
 rm -f $M/tv/.cargo/config.toml
